@@ -7,6 +7,8 @@ import (
 	"errors"
 	"fmt"
 	"math"
+	"os"
+	"path/filepath"
 	"testing"
 	"time"
 
@@ -50,12 +52,36 @@ type vfThrCfg struct {
 	MinRefillMs int64 `json:"min_refill_ms"`
 	MinPrev     int   `json:"min_plus_preview_secs"`
 	FPS         int   `json:"fps"`
+	// ViaFile: the settings reach the throttler the way the daemon gets them - written to a config.toml
+	// ([thermal-throttler] bucket-size / min-refill) and loaded with goconfig.New + throttle.NewConfig
+	ViaFile bool `json:"via_file,omitempty"`
 }
 
 func (c vfThrCfg) valid() bool {
 	return c.BucketMs >= 1000 && c.BucketMs <= 3600000 && c.MinRefillMs >= 1 && c.MinRefillMs <= 7200000 && c.MinPrev >= 1 && c.MinPrev <= 60 && c.FPS >= 1 && c.FPS <= 30
 }
 func (c vfThrCfg) conf() *config.ThermalThrottler {
+	if c.ViaFile {
+		dir, err := os.MkdirTemp(os.Getenv("VERIF_SCRATCH"), "thrconf-")
+		if err != nil {
+			panic(err)
+		}
+		defer os.RemoveAll(dir)
+		toml := fmt.Sprintf("[thermal-throttler]\nactivate = true\nbucket-size = %q\nmin-refill = %q\n",
+			(time.Duration(c.BucketMs) * time.Millisecond).String(), (time.Duration(c.MinRefillMs) * time.Millisecond).String())
+		if err := os.WriteFile(filepath.Join(dir, "config.toml"), []byte(toml), 0644); err != nil {
+			panic(err)
+		}
+		raw, err := config.New(dir)
+		if err != nil {
+			panic(fmt.Sprintf("goconfig.New: %v", err))
+		}
+		tc, err := NewConfig(raw)
+		if err != nil {
+			panic(fmt.Sprintf("throttle.NewConfig: %v", err))
+		}
+		return tc
+	}
 	return &config.ThermalThrottler{Activate: true, BucketSize: time.Duration(c.BucketMs) * time.Millisecond, MinRefill: time.Duration(c.MinRefillMs) * time.Millisecond}
 }
 func (c vfThrCfg) bucketFrames() float64 { return float64(c.BucketMs) / 1000 * float64(c.FPS) }
@@ -281,6 +307,7 @@ func vfGenThrCfg(t *rapid.T) vfThrCfg {
 	}
 	c.MinRefillMs = rapid.SampledFrom([]int64{1000, 2000, 5000, 20000, 60000, 600000, 3600000, 1500, 333}).Draw(t, "minrefill")
 	c.MinPrev = rapid.IntRange(1, 6).Draw(t, "minprev")
+	c.ViaFile = rapid.IntRange(0, 4).Draw(t, "viafile") == 0
 	return c
 }
 
